@@ -60,7 +60,17 @@ func runC14(c *Ctx) {
 		runs := 0
 		viol, vpos := "", p.Pos(fn.Decl.Pos())
 		unknown := map[string]bool{}
-		// names of the locals by role: found by their defining expressions
+		// names of the locals by role: the window and the last subrange are what is handed to fetchMissingSubranges
+		// (arguments 2, 3 and 6, 7)
+		roleNames := [4]string{"startRange", "endRange", "lastSubrangeOffset", "lastSubrangeLength"}
+		ast.Inspect(fn.Body(), func(n ast.Node) bool {
+			if call, ok := n.(*ast.CallExpr); ok && len(call.Args) >= 8 {
+				if f := calleeOf(fn.Info(), call); f != nil && f.Name() == "fetchMissingSubranges" {
+					roleNames = [4]string{canon(call.Args[2]), canon(call.Args[3]), canon(call.Args[6]), canon(call.Args[7])}
+				}
+			}
+			return true
+		})
 		roleOf := func(li *lenInterp, s lenState) (start, end, lastOff, lastLen int64, ok bool) {
 			get := func(sub string) (int64, bool) {
 				for k, v := range s.v {
@@ -71,12 +81,13 @@ func runC14(c *Ctx) {
 				return 0, false
 			}
 			var o1, o2, o3, o4 bool
-			start, o1 = get("startRange")
-			end, o2 = get("endRange")
-			lastOff, o3 = get("lastSubrangeOffset")
-			lastLen, o4 = get("lastSubrangeLength")
+			start, o1 = get(roleNames[0])
+			end, o2 = get(roleNames[1])
+			lastOff, o3 = get(roleNames[2])
+			lastLen, o4 = get(roleNames[3])
 			return start, end, lastOff, lastLen, o1 && o2 && o3 && o4
 		}
+		attrsName := lhsOfCallTo(fn, "cachedAttributes", 0)
 		for size := int64(1); size <= maxSize && viol == ""; size++ {
 			for sub := int64(1); sub <= 4 && viol == ""; sub++ {
 				for off := int64(0); off < size && viol == ""; off++ {
@@ -84,7 +95,7 @@ func runC14(c *Ctx) {
 						li := &lenInterp{p: p, fn: fn, info: fn.Info(), slices: map[string]bool{},
 							atoms: func(t string) string {
 								switch {
-								case strings.HasSuffix(t, ".Size") && strings.HasPrefix(t, "attrs"):
+								case t == attrsName+".Size":
 									return "size"
 								case strings.HasSuffix(t, ".SubrangeSize"):
 									return "S"
@@ -144,10 +155,17 @@ func runC14(c *Ctx) {
 		}
 		// the key's End is min(off+SubrangeSize, attrs.Size)
 		okKey := false
+		endName := "end"
 		ast.Inspect(fn.Body(), func(n ast.Node) bool {
-			if as, ok := n.(*ast.AssignStmt); ok && len(as.Lhs) == 1 && len(as.Rhs) == 1 && exprString(as.Lhs[0]) == "end" {
+			if kv, ok := n.(*ast.KeyValueExpr); ok && canon(kv.Key) == "End" {
+				endName = canon(kv.Value)
+			}
+			return true
+		})
+		ast.Inspect(fn.Body(), func(n ast.Node) bool {
+			if as, ok := n.(*ast.AssignStmt); ok && len(as.Lhs) == 1 && len(as.Rhs) == 1 && exprString(as.Lhs[0]) == endName {
 				t := canon(as.Rhs[0])
-				if strings.HasPrefix(t, "min(") && strings.Contains(t, ".SubrangeSize") && strings.Contains(t, "attrs.Size") {
+				if strings.HasPrefix(t, "min(") && strings.Contains(t, ".SubrangeSize") && strings.Contains(t, attrsName+".Size") {
 					okKey = true
 				}
 			}
